@@ -145,12 +145,14 @@ Justified(sol) ==
 \* supported by its target
 PlanAtomFlaws(sol) == {f \in AtomFlaws(sol) : LV(sol, f.phi) = 1}
 ChosenOf(sol, f) == Resolver(sol, CHOOSE rid \in ChosenResolvers(sol, f) : TRUE)
-Children(sol, f) ==       \* atom flaws introduced by the chosen resolver of f (sub-goals and facts of the rule body)
-  {g \in PlanAtomFlaws(sol) : \E i \in DOMAIN g.causes : g.causes[i] \in ChosenResolvers(sol, f)}
+PlanFlaws(sol) == {f \in SeqRange(sol.flaws) : LV(sol, f.phi) = 1}
+Children(sol, f) ==       \* flaws introduced by the chosen resolver of f: sub-goals and facts of the rule body, and the
+                          \* disjunctions / variable choices of the body, whose chosen resolver introduces further ones
+  {g \in PlanFlaws(sol) : \E i \in DOMAIN g.causes : g.causes[i] \in ChosenResolvers(sol, f)}
 FlawOfAtom(sol, aid) == CHOOSE f \in AtomFlaws(sol) : f.atom = aid
 Succ(sol, f) ==
   Children(sol, f) \cup
-  (IF ChosenResolvers(sol, f) # {} /\ ChosenOf(sol, f).kind = "unify" /\ ChosenOf(sol, f).target # 0
+  (IF f.kind = "atom" /\ ChosenResolvers(sol, f) # {} /\ ChosenOf(sol, f).kind = "unify" /\ ChosenOf(sol, f).target # 0
    THEN {FlawOfAtom(sol, ChosenOf(sol, f).target)} ELSE {})
 RECURSIVE ReachFrom(_, _, _)
 ReachFrom(sol, frontier, visited) ==
